@@ -4,6 +4,7 @@ Property theorems only (ledger side; the cluster side is C02's model).
 -/
 import Helm.Model.Ledger
 import Helm.Lemmas.Ledger
+import Helm.Lemmas.RollbackFailure
 import Helm.Props.C02
 import Helm.Gen.Tables
 import Helm.Spec.Skeletons
@@ -126,16 +127,27 @@ theorem install_failure_marks_failed (nh : Nat) (f : Faults) (p : Nat)
 example : (install { nHooks := 2 } { postHook := .fail } {} 7 []).1.ledger = [⟨1, .failed, 7⟩] :=
   (install_failure_marks_failed 2 { postHook := .fail } 7 rfl rfl (Or.inr (Or.inr (Or.inr ⟨rfl, rfl, rfl, rfl, by omega⟩)))).2
 
-/-! ## rollback: the exception (known finding C03:rollback-hook-failure-leaves-pending) -/
+/-! ## rollback: hooks (repaired in /repo: it used to leave the revision pending-rollback) -/
 
-/-- A failing pre- or post-rollback hook returns an error with the new revision still
-`pending-rollback` (and every later upgrade then refuses with "another operation is in progress"). -/
-theorem counterexample_rollback_hook_leaves_pending :
+/-- A failing pre- (`post = false`) or post-rollback hook, on EVERY history: the rollback returns
+an error, the revision it created is recorded as failed, and every other record -- the deployed
+one included -- is as it was. -/
+theorem rollback_hook_failure_marks_failed (post : Bool) (fl : RollbackFlags) (l : Ledger) (cur prevRec : Rec)
+    (hdry : fl.dryRun = false) (hmax : fl.maxHistory = 0) (hhooks : fl.disableHooks = false) (hn : 0 < fl.nHooks)
+    (hlast : last? l = some cur)
+    (hprev : get? l (if fl.version = 0 then cur.rev - 1 else fl.version) = some prevRec) :
+    (rollback fl (if post then { postHook := .fail } else { preHook := .fail }) l).2 = .error ∧
+    (rollback fl (if post then { postHook := .fail } else { preHook := .fail }) l).1.ledger =
+      l ++ [⟨cur.rev + 1, .failed, prevRec.payload⟩] :=
+  rollback_hook_failure post fl l cur prevRec hdry hmax hhooks hn hlast hprev
+
+/-- premises satisfiable, and the next upgrade is no longer refused -/
+theorem rollback_hook_failure_instance :
     let l : Ledger := [⟨1, .superseded, 1⟩, ⟨2, .deployed, 2⟩]
     (rollback { version := 1, nHooks := 1 } { preHook := .fail } l).2 = .error ∧
     (rollback { version := 1, nHooks := 1 } { preHook := .fail } l).1.ledger =
-      [⟨1, .superseded, 1⟩, ⟨2, .deployed, 2⟩, ⟨3, .pendingRollback, 1⟩] ∧
-    (upgrade {} {} {} 9 (rollback { version := 1, nHooks := 1 } { preHook := .fail } l).1.ledger).2 = .error := by
+      [⟨1, .superseded, 1⟩, ⟨2, .deployed, 2⟩, ⟨3, .failed, 1⟩] ∧
+    (upgrade {} {} {} 9 (rollback { version := 1, nHooks := 1 } { preHook := .fail } l).1.ledger).2 = .success := by
   decide
 
 /-- ... whereas a failing update or wait of a rollback does mark it failed. -/
@@ -266,6 +278,7 @@ theorem failure_paths_skeleton :
     Helm.Gen.skelInstallFail = Helm.Spec.skelInstallFail ∧
     Helm.Gen.skelUpgradeReleasing = Helm.Spec.skelUpgradeReleasing ∧
     Helm.Gen.skelRollbackPerform = Helm.Spec.skelRollbackPerform ∧
+    Helm.Gen.skelRollbackFail = Helm.Spec.skelRollbackFail ∧
     Helm.Spec.precedes "cfg.execHook:HookPostUpgrade" "set originalRelease StatusSuperseded" Helm.Gen.skelUpgradeReleasing = true := by
   decide
 
